@@ -14,7 +14,7 @@ from ..spec import build_continuum, spec_by_annotator, to_unit
 from ..universe import iter_G, size_G
 
 ID = "C17"
-TASK_TIMEOUT = 1200.0
+TASK_TIMEOUT = 2700.0
 META = {
     "rule": "case = (continuum, multiset of unitary alignments, order, class, entry point); non-trivial = distinct "
             "cases that are not valid partitions (dropped / duplicated / moved / re-slotted units); outcomes = distinct "
@@ -62,7 +62,8 @@ def shards(tier, seed):
         U += [dict(n=2, k=2, T=2, labels=["x", "y"]), dict(n=3, k=2, T=2, labels=["x"], sym=True)]
     tasks = []
     for u in U:
-        ns = max(1, min(48, size_G(u["n"], u["k"], u["T"], u["labels"], segs=u.get("segs")) // 6))
+        # thorough: one continuum per shard in the largest universe (a single 6-unit continuum has ~10^7 cases)
+        ns = max(1, min(48 if tier == "quick" else 96, size_G(u["n"], u["k"], u["T"], u["labels"], segs=u.get("segs")) // (6 if tier == "quick" else 4)))
         for s in range(ns):
             tasks.append({"universe": u, "shard": s, "nshards": ns, "tier": tier})
     return tasks
